@@ -294,3 +294,91 @@ Proof.
   - destruct ords as [|y ords]; [discriminate|]. rewrite forallb_forall in H3.
     intros z Hz. specialize (H3 _ Hz). destruct z; cbn in H3; congruence.
 Qed.
+
+
+(* ---------- atomic.Value: the type word is published only after the data word ---------- *)
+Definition vop_ok (o : vop) : Prop := match o with VStore d => d <> 0 | VLoad => True end.
+Definition vres_ok (r : vres) : Prop := match r with VRVal d => d <> 0 | _ => True end.
+
+(* what a thread needs of the data word D, depending on where it is *)
+Definition vth_ok (D : Prop) (th : vthread) : Prop :=
+  (v_pc th = VSt2 \/ v_pc th = VLd2 -> D) /\ Forall vop_ok (vprog th) /\ Forall vres_ok (vout th).
+
+Definition vinv (s : vstate) : Prop :=
+  (v_typ s = TSet -> v_data s <> 0) /\ Forall (vth_ok (v_data s <> 0)) (v_ths s).
+
+Lemma vth_ok_weaken (D D' : Prop) th : (D -> D') -> vth_ok D th -> vth_ok D' th.
+Proof. intros H (A & B & C). repeat split; auto. Qed.
+
+Lemma vinv_exec s t th o rest :
+  vinv s -> nth_error (v_ths s) t = Some th -> vprog th = o :: rest -> vinv (v_exec false s t th o rest).
+Proof.
+  intros (HT & HF) Et Ep.
+  pose proof (Forall_nth_error _ _ _ _ HF Et) as (Hpc & Hops & Hout).
+  rewrite Ep in Hops. inversion Hops as [|? ? Ho Hrest]; subst.
+  assert (Hfin : forall D r, vres_ok r -> vth_ok D (vfin th rest r)).
+  { intros D r Hr. unfold vth_ok, vfin; cbn. repeat split; auto.
+    - intros [H|H]; discriminate.
+    - apply Forall_app. split; auto. }
+  assert (Hgoto : forall (D : Prop) p, (p = VSt2 \/ p = VLd2 -> D) -> vth_ok D (vgoto th p)).
+  { intros D p Hp. unfold vth_ok, vgoto; cbn. rewrite Ep. repeat split; auto. }
+  unfold v_exec. destruct o as [d|], (v_pc th) eqn:Epc; try (split; assumption); cbn [vop_ok] in Ho.
+  - (* Store: LoadPointer(typ) *)
+    split; [exact HT|]. cbn [v_ths v_data]. apply Forall_upd; auto. apply Hgoto.
+    destruct (v_typ s); intros [H|H]; discriminate.
+  - (* CAS *)
+    destruct (v_typ s) eqn:Ety; (split; [cbn; try discriminate; auto|]); cbn [v_ths v_data];
+      apply Forall_upd; auto; apply Hgoto; intros [H|H]; discriminate.
+  - (* first store: the data word, non-zero *)
+    split; [intros _; exact Ho|]. cbn [v_ths v_data]. apply Forall_upd.
+    + revert HF. apply Forall_impl. intros a. apply vth_ok_weaken. auto.
+    + apply Hgoto. auto.
+  - (* second store: the type word; the data word has been written *)
+    split; [intros _; apply Hpc; auto|]. cbn [v_ths v_data]. apply Forall_upd; auto. apply Hfin. exact I.
+  - (* later Store overwrites the data word with a non-zero pointer *)
+    split; [intros _; exact Ho|]. cbn [v_ths v_data]. apply Forall_upd.
+    + revert HF. apply Forall_impl. intros a. apply vth_ok_weaken. auto.
+    + apply Hfin. exact I.
+  - (* Load: LoadPointer(typ) *)
+    destruct (v_typ s) eqn:Ety; (split; [exact HT|]); cbn [v_ths v_data]; apply Forall_upd; auto;
+      try (apply Hfin; exact I); try (apply Hgoto; intros _; apply HT; reflexivity).
+  - (* Load: LoadPointer(data) *)
+    split; [exact HT|]. cbn [v_ths v_data]. apply Forall_upd; auto. apply Hfin. cbn. apply Hpc. auto.
+Qed.
+
+Lemma vinv_run sc : forall s, vinv s -> vinv (v_run false sc s).
+Proof.
+  induction sc as [|t sc IH]; intros s H; cbn [v_run]; auto.
+  unfold v_step. destruct (nth_error (v_ths s) t) as [th|] eqn:Et; auto.
+  destruct (vprog th) as [|o rest] eqn:Ep; auto. apply IH. eapply vinv_exec; eauto.
+Qed.
+
+Lemma vinv_init progs : Forall (Forall vop_ok) progs -> vinv (v_init progs).
+Proof.
+  intros H. split; [discriminate|]. cbn. rewrite Forall_map. revert H. apply Forall_impl.
+  intros p Hp. unfold vth_ok; cbn. repeat split; auto. intros [E|E]; discriminate.
+Qed.
+
+(* under every schedule: once the type word is set the data word is set, and no Load ever
+   returned a non-nil type with a nil data word *)
+Lemma value_published progs sc : Forall (Forall vop_ok) progs ->
+  let s := v_run false sc (v_init progs) in
+  (v_typ s = TSet -> v_data s <> 0) /\
+  forall t th d, nth_error (v_ths s) t = Some th -> In (VRVal d) (vout th) -> d <> 0.
+Proof.
+  intros H s. destruct (vinv_run sc _ (vinv_init progs H)) as [HT HF]. fold s in HT, HF.
+  split; auto. intros t th d Et Hin.
+  pose proof (Forall_nth_error _ _ _ _ HF Et) as (_ & _ & Hout).
+  rewrite Forall_forall in Hout. exact (Hout _ Hin).
+Qed.
+
+(* with the two publishing stores the other way round a Load sees the type and no data *)
+Lemma value_reordered_ex :
+  exists progs sc, Forall (Forall vop_ok) progs /\
+    let s := v_run true sc (v_init progs) in
+    exists th, nth_error (v_ths s) 0 = Some th /\ vout th = [VRVal 0].
+Proof.
+  exists [[VLoad]; [VStore 2]], [1;1;1;0;0;1]%nat. split.
+  - repeat constructor; cbn; discriminate.
+  - vm_compute. eexists; split; reflexivity.
+Qed.
